@@ -33,8 +33,8 @@ EXTRA_MODULES = {
     "C01": ["Tie.Plan", "Tie.SeekArith", "Tie.ReadLoops"],
     "C02": ["Tie.SeekArith", "Tie.ReadLoops"],
     "C03": ["Tie.Bits", "Tie.BitsValidation"],
-    "C04": ["Tie.Bits", "Tie.SigprocTables"],
-    "C05": ["Tie.SigprocTables"],
+    "C04": ["Tie.Bits", "Tie.SigprocTables", "Tie.SigprocCodec"],
+    "C05": ["Tie.SigprocTables", "Tie.SigprocCodec"],
     "C06": ["Tie.Plan", "Tie.Collapse", "Tie.Dedisperse", "Kernels.ExtractTim", "Kernels.ExtractBpass", "Kernels.Dedisperse"],
     "C07": ["Tie.Plan", "Tie.Subband", "Kernels.InvertFreq", "Kernels.MaskChannels", "Kernels.Subband",
             "Kernels.RemoveZerodm", "Kernels.Downsample2d"],
@@ -49,7 +49,7 @@ EXTRA_MODULES = {
     "C17": ["Tie.StateMachines"],
     "C18": ["Tie.Plan", "Tie.Pfits"],
     "C19": ["Tie.Prange"],
-    "C20": ["Tie.WriterOps", "Tie.Bits", "Tie.SigprocTables"],
+    "C20": ["Tie.WriterOps", "Tie.Bits", "Tie.SigprocTables", "Tie.SigprocCodec"],
 }
 
 
